@@ -58,3 +58,9 @@ var w_type_method_call(var type) { return type_method(type, Current, current); }
 struct WObj { var a; var b; };
 var WObj = Cello(WObj, Instance(Cmp, NULL));
 var WEmpty = CelloEmpty(WEmpty);
+
+/* the four member-test / member-call macros name a member the same way (C08.member-addressing) */
+bool w_implements_first(var self) { return implements_method(self, Get, get); }
+bool w_implements_third(var self) { return implements_method(self, Get, mem); }
+bool w_type_implements_first(var type) { return type_implements_method(type, Get, get); }
+bool w_type_implements_third(var type) { return type_implements_method(type, Get, mem); }
